@@ -67,3 +67,30 @@ Theorem C15_cos_sin_contains : forall z ca sa na cb sb nb va vb prec a b, valid_
      in_civ w (sin a * cosh b) (cos a * sinh b) /\ valid_civ w).
 Proof. exact mpci_cos_sin_contains. Qed.
 Print Assumptions C15_cos_sin_contains.
+
+(* the argument of a rectangle (mpi_atan2 / mpci_arg, hence the imaginary part of mpci_log): mpf_atan2 is not modelled; the
+   model says at which two corners of the rectangle it is evaluated (compared with the arguments of the live calls).  In each
+   open half-plane the angle of every member point lies between the angles at the two chosen corners; on the real axis and
+   for rectangles meeting the branch cut the plan is [0,0], [pi,pi], [0,pi] or [-pi,pi] (the last two since fix a833e27). *)
+From MP Require Import Proofs.IvAtan2.
+Theorem C15_arg_right : forall y x v u, valid_iv y -> valid_iv x -> in_iv y v -> in_iv x u -> (0 < rv (fst x))%R ->
+  (rv (fst y) <> 0 \/ rv (snd y) <> 0)%R ->
+  exists ca cb, mpi_atan2_plan y x = AtCorners ca cb /\
+    (corner_ang ang_right ca <= ang_right v u <= corner_ang ang_right cb)%R.
+Proof. exact atan2_right. Qed.
+Theorem C15_arg_upper : forall y x v u, valid_iv y -> valid_iv x -> in_iv y v -> in_iv x u -> (rv (fst x) < 0)%R -> (0 < rv (fst y))%R ->
+  exists ca cb, mpi_atan2_plan y x = AtCorners ca cb /\
+    (corner_ang ang_upper ca <= ang_upper v u <= corner_ang ang_upper cb)%R.
+Proof. exact atan2_upper. Qed.
+Theorem C15_arg_lower : forall y x v u, valid_iv y -> valid_iv x -> in_iv y v -> in_iv x u -> (rv (fst x) < 0)%R -> (rv (snd y) < 0)%R ->
+  exists ca cb, mpi_atan2_plan y x = AtCorners ca cb /\
+    (corner_ang ang_lower ca <= ang_lower v u <= corner_ang ang_lower cb)%R.
+Proof. exact atan2_lower. Qed.
+Print Assumptions C15_arg_lower.
+Theorem C15_arg_axis : forall x, valid_iv x ->
+  mpi_atan2_plan (fzero, fzero) x =
+    if Rle_dec 0 (rv (fst x)) then AtZero else if Rlt_dec (rv (snd x)) 0 then AtPi else AtZeroPi.
+Proof. exact atan2_axis_plan. Qed.
+Theorem C15_arg_cut : forall y x, valid_iv y -> valid_iv x -> (rv (fst y) < 0 <= rv (snd y))%R -> (rv (fst x) < 0)%R ->
+  mpi_atan2_plan y x = AtOrigin.
+Proof. exact atan2_origin_plan. Qed.
